@@ -3,8 +3,9 @@ CONSTANTS
   Callers = {"c1", "c2"}
   Cancellers = {"k1"}
   Periodic = TRUE
+  DeleteByName = FALSE
   DropOnClaim = FALSE
   MaxRuns = 3
-INVARIANTS TypeOK NoOverlap NoPanic NameReusable LockFreeAtEnd
+INVARIANTS TypeOK NoOverlap NoPanic NameReusable NameSlotUnique SuccessorReachable LockFreeAtEnd
 PROPERTIES KeepsTicking
 CHECK_DEADLOCK FALSE
